@@ -3,9 +3,9 @@
 run the owning check against it (VERIF_REPO), record whether it is caught.  Results: build/seeded_results.json"""
 import sys, os, json, subprocess, glob, shutil
 ROOT = "/verif"; SRC = sys.argv[1]; only = sys.argv[2:]
-WT = "/tmp/seedeval"
+WT = os.environ.get("SEEDED_WT", "/tmp/seedeval")
 res = {}
-out_json = os.path.join(ROOT, "build", "seeded_results.json")
+out_json = os.environ.get("SEEDED_RESULTS") or os.path.join(ROOT, "build", "seeded_results.json")
 if os.path.exists(out_json):
     res = json.load(open(out_json))
 enabled = open(os.path.join(ROOT, "props", "ENABLED")).read().split()
